@@ -34,4 +34,20 @@ for tag, cfile, openfn, fmt in (("htk", "htk.c", "htk_open", "(SF_FORMAT_HTK|SF_
                                              "psf_binheader_writef.1:40", "uint2tenbytefloat.0:34"],
                        checks="mem", fsa=340, include_env=("log_stub", "memfile", "memset_model", "snprintf_model", "libm_model"), timeout=300,
                        functions=[openfn, cfile + " header writer", "validate_sfinfo"], bounds="sample rate any 32-bit value, 1 channel, PCM16"))
+# sf_format_check accepted => the container's write open succeeds, for every encoding word / endian flag
+for tag, cfile, openfn, cont, submax in (("au", "au.c", "au_open", "SF_FORMAT_AU", "0x0033"), ("aiff", "aiff.c", "aiff_open", "SF_FORMAT_AIFF", "0x0007"), ("wav", "wav.c", "wav_open", "SF_FORMAT_WAV", "0x0007"),
+                                         ("w64", "w64.c", "w64_open", "SF_FORMAT_W64", "0x0007"), ("voc", "voc.c", "voc_open", "SF_FORMAT_VOC", "0x0033"), ("svx", "svx.c", "svx_open", "SF_FORMAT_SVX", "0x0033"),
+                                         ("mat4", "mat4.c", "mat4_open", "SF_FORMAT_MAT4", "0x0033"), ("avr", "avr.c", "avr_open", "SF_FORMAT_AVR", "0x0033"), ("htk", "htk.c", "htk_open", "SF_FORMAT_HTK", "0x0033"),
+                                         ("mpc2k", "mpc2k.c", "mpc2k_open", "SF_FORMAT_MPC2K", "0x0033")):
+  for subfix, endfix in ([(None, None)] if tag not in ("aiff", "wav", "w64") else [(sb, en) for sb in ("SF_FORMAT_PCM_S8", "SF_FORMAT_PCM_U8", "SF_FORMAT_PCM_16", "SF_FORMAT_FLOAT")
+                                                                                       for en in ("SF_ENDIAN_FILE", "SF_ENDIAN_LITTLE", "SF_ENDIAN_BIG", "SF_ENDIAN_CPU")]):
+    _d = {"CONTAINER_FILE": '"%s"' % cfile, "OPEN_FN": openfn, "CONTAINER": cont, "SUB_MAX": submax, "MF_CAP": 256, "MF_MAXIO": 256, "SNP_MAX": 40, "PSF_MEMSET_MAX": 64, "STUB_APPEND_SNPRINTF": 1}
+    if subfix is not None: _d["SUB_FIXED"] = subfix; _d["SUB_MAX"] = "0x00ff"; _d["END_FIXED"] = endfix; _d["CH_FIXED"] = 2
+    HARNESSES.append(H("open_fmt." + tag + ("" if subfix is None else "." + subfix[10:].lower() + "." + endfix[10:].lower()), "C10/open_fmt.c", link=[u for u in _ALLU if u + ".c" != cfile], stubs=["psf_log_printf", "psf_memset", "append_snprintf"],
+                       defines=_d,
+                       unwind=12, unwindset=["psf_fwrite.0:257", "psf_fread.0:257", "psf_memset.0:65", "strlen.0:70", "snprintf.0:41", "snprintf.1:41", "psf_binheader_writef.0:258",
+                                             "psf_binheader_writef.1:40", "uint2tenbytefloat.0:34"],
+                       checks="mem", fsa=340, include_env=("log_stub", "memfile", "memset_model", "snprintf_model", "libm_model"), timeout=400,
+                       functions=["sf_format_check", openfn, cfile + " header writer", "codec init", "validate_sfinfo", "validate_psf"],
+                       bounds="every encoding word 0..%s (PCM, float, G.711, the ADPCM/GSM/DWVW codes below it), every endian flag, 1..2 channels, 8000 Hz" % submax))
 META = {"assumptions": [], "outside": ["accepted => the container's open really succeeds and writes (H1): see DESIGN, registered separately when built"]}
